@@ -86,4 +86,25 @@ def swapperTrace (S : Swapper) (rm : RouteMap) (hrm : Nat → RouteMap) (rank : 
     let steps := rm.r kS kD
     (steps.foldl (fun (st : List Call × Nat) next => (st.1 ++ one st.2 next, next)) ([], kS)).1
 
+/-! ### checkpoints: the collectives of parallel HDF5 (`Grid.writeH5Dataset`, grid.py:202-221) -/
+
+/-- a collective of parallel HDF5 with the arguments that must agree on every member of the communicator -/
+structure H5Call where
+  op : String
+  name : String
+  shape : List Nat
+deriving Repr, DecidableEq
+
+/-- `Grid.writeH5Dataset` on one process: file creation, dataset creation with its shape, attribute creation, close.
+    `nGlobal` = numbers of points of the coordinates the GRID was given (the same on every member, also on a plot-only process);
+    `layoutExt` = the extents the current LAYOUT knows (all zero on a plot-only process, whose handler was built from empty coordinate
+    lists); `ord` = the ordering of the current layout.  `fixed = true` is the code after the repair of F30 (shape from the grid),
+    `fixed = false` the earlier one (shape = `layout.fullShape`). -/
+def checkpointTrace (fixed : Bool) (nGlobal layoutExt ord : List Nat) (file : String) : List H5Call :=
+  let src := if fixed then nGlobal else layoutExt
+  [{ op := "File", name := file, shape := [] },
+   { op := "create_dataset", name := "dset", shape := ord.map (fun d => src.getD d 0) },
+   { op := "attrs.create", name := "Layout", shape := [ord.length] },
+   { op := "close", name := "", shape := [] }]
+
 end PygyroVerif.Traces
